@@ -271,7 +271,7 @@ fn c07(_ctx: &Ctx, r: &mut Report) {
     for (attr, dynamic) in [("", false), ("ref", true), ("dyn", true)] {
         for nfn in 1..=3usize {
             for is_async in [false, true] {
-                for bounds in ["", "A", "A + B"] {
+                for bounds in ["", "A", "A + B", "Repo<u8> + Repo<u16> + other::Repo<u8>"] {
                     let names = ["f", "g", "h"];
                     let fns: Vec<String> = (0..nfn)
                         .map(|k| {
@@ -318,9 +318,11 @@ fn c07(_ctx: &Ctx, r: &mut Report) {
                                 }
                             }
                         }
-                        let per_fn: Vec<&str> = if bounds.is_empty() { vec![] } else { bounds.split(" + ").collect() };
-                        let want_b: Vec<String> = (0..nfn).flat_map(|_| per_fn.iter().map(|s| s.to_string())).collect();
-                        if impl_bounds != want_b {
+                        let per_fn: Vec<String> = if bounds.is_empty() { vec![] } else { bounds.split(" + ").map(|b| tt_string(&ts(b))).collect() };
+                        let want_b: Vec<String> = (0..nfn).flat_map(|_| per_fn.iter().cloned()).collect();
+                        // "no declared bound dropped, none added": a set comparison (repeating a bound, or not, is immaterial)
+                        let as_set = |v: &Vec<String>| -> std::collections::BTreeSet<String> { v.iter().cloned().collect() };
+                        if as_set(&impl_bounds) != as_set(&want_b) {
                             r.fail("further-dependencies", &input, format!("Impl<EntraitT> must satisfy [{}], the where clause says [{}]", want_b.join(", "), impl_bounds.join(", ")));
                         }
                         let ms = impl_methods(im);
